@@ -1,6 +1,6 @@
 (* C07: proofs about the exact facet-normal specification of Formats/StlNormal.v.
    The soundness theorem is stated over Coq's real numbers (stdlib Reals axioms; Flocq's bpow for 2^e). *)
-From PF Require Import Base.Bytes Formats.Stl Formats.StlNormal.
+From PF Require Import Base.Bytes Formats.Stl Formats.StlProofs Formats.StlNormal.
 From Coq Require Import ZArith Lia Reals Lra Psatz.
 From Flocq Require Import Core.Raux Core.Zaux Core.Defs Core.Float_prop IEEE754.Binary IEEE754.Bits.
 Open Scope Z_scope.
@@ -233,4 +233,18 @@ Theorem f32R_ieee754 (w : N) : (w < 4294967296)%N -> f32_decode w <> None ->
   B2R 24 128 (b32_of_bits (Z.of_N w)) = f32R w.
 Proof.
   intros Hw Hd. rewrite <- (N2Z.id w) at 2. apply f32R_flocq; [lia | rewrite N2Z.id; assumption].
+Qed.
+
+(* ---------- placement and value together ----------
+   in the bytes stl.WriteMesh wrote, the 12 bytes at offset 84 + 50 t are the little-endian words of a vector that
+   is the normalised sum of the normals of vertices idx[3t], idx[3t+1], idx[3t+2] *)
+Theorem mesh_facet_normal_at idx pos nrm fns bytes t :
+  write_mesh idx (Some pos) fns = Some bytes -> length idx = (3 * length fns)%nat ->
+  mesh_normals_ok idx nrm fns = true -> (t < length fns)%nat ->
+  exists pre post v, bytes = pre ++ vec12 v ++ post /\ length pre = (84 + 50 * t)%nat /\
+                     facet_ok (corner_sum idx nrm t) v = true.
+Proof.
+  intros Hw Hl Hn Ht. destruct (mesh_record_at idx pos fns bytes t Hw Hl Ht) as (pre & post & E & Hp).
+  exists pre. eexists. exists (nth t fns vzero). split; [exact E|]. split; [exact Hp|].
+  apply mesh_normals_ok_spec; assumption.
 Qed.
